@@ -21,6 +21,8 @@ import (
 	"os"
 	"os/signal"
 	"strings"
+
+	"github.com/dappledger/AnnChain/gemmill/utils/failpoint"
 )
 
 var (
@@ -102,17 +104,20 @@ func WriteFileAtomic(filePath string, newBytes []byte, mode os.FileMode) error {
 		if err != nil {
 			return fmt.Errorf("Could not read file %v. %v", filePath, err)
 		}
+		failpoint.Write("fileatomic", filePath, []byte("bak"))
 		err = ioutil.WriteFile(filePath+".bak", fileBytes, mode)
 		if err != nil {
 			return fmt.Errorf("Could not write file %v. %v", filePath+".bak", err)
 		}
 	}
 	// Write newBytes to filePath.new
+	failpoint.Write("fileatomic", filePath, []byte("new"))
 	err := ioutil.WriteFile(filePath+".new", newBytes, mode)
 	if err != nil {
 		return fmt.Errorf("Could not write file %v. %v", filePath+".new", err)
 	}
 	// Move filePath.new to filePath
+	failpoint.Write("fileatomic", filePath, []byte("rename"))
 	err = os.Rename(filePath+".new", filePath)
 	return err
 }
